@@ -576,6 +576,8 @@ class t2listing(object):
         while tname != tablename:
             self.skipto('@@@@@')
             tname = self.next_table_TOUGH2()
+            if tname is None: return False # table not printed at this time
+        return True
 
     def skip_to_table_TOUGHplus(self, tablename, last_tablename, nelt_tables):
         if last_tablename is None:
@@ -1104,7 +1106,15 @@ class t2listing(object):
                     if is_short: tablename = tname[0].upper() + 'SHORT'
                     else: tablename = tname
                     if not (is_short and not (tablename in self.short_types)):
-                        self.skip_to_table(tname, last_tname, nelt_tables)
+                        found = self.skip_to_table(tname, last_tname, nelt_tables)
+                        if found is False:
+                            # table not printed at this time: no data for its items,
+                            # and look for the next table from the top of these results
+                            for (lineindex, colname, reverse, sel_index) in tselect:
+                                hist[sel_index].append(np.nan)
+                            self._file.seek(pos)
+                            last_tname = None
+                            continue
                         if tname.startswith('element'): nelt_tables += 1
                         cols = self._table[tname].column_name
                         ncols = self._table[tname].num_columns
